@@ -54,6 +54,10 @@ def parse(
             return func
         else:
             parser = parser_cls.apply_for(func, options=options, no_cache=no_cache)
+            if not options and not no_cache and parser.init_kwargs.get("options"):
+                # the cache answered with the parser of an earlier @parse(options=...) of this function:
+                # this declaration names no options, so those are not its own
+                parser = parser_cls.apply_for(func, no_cache=True)
             return parser.wrap(
                 parse_params=not ignore_params,
                 parse_result=not ignore_result,
